@@ -97,7 +97,9 @@ def run(sim: Sim) -> None:
     gap = GAP_FUNCTIONS[gap_name]
     explorable = games.explorable_ids(n)
     what = sim.pick_weighted([("sequences", 4), ("sample", 2), ("best_states", 3), ("meta", 2)], "call")
-    extras = sim.subset(explorable, "start-extras", 1, 5) if what in ("sequences", "sample") else []
+    extras = sim.subset(explorable, "start-extras", 1, 5) if what in ("sequences", "sample", "best_states") else []
+    if len(extras) == len(explorable):
+        extras = extras[:-1]
     if extras:
         sim.probe("starting_knowledge_beyond_minimal")
     K0 = games.minimal_ids(n) + extras
@@ -119,7 +121,7 @@ def run(sim: Sim) -> None:
         elif what == "sample":
             _sample(sim, gameplay, n, comp_name, gap, K0, unknown, k, values, configs, ctx, cache)
         elif what == "best_states":
-            _best_states(sim, n, comp_name, gap, cls, explorable, max(k, 1), values, configs, ctx, cache)
+            _best_states(sim, n, comp_name, gap, cls, unknown, extras, max(k, 1), values, configs, ctx, cache)
         else:
             _meta(sim, gameplay, n, comp_name, gap, explorable, k, values[0], configs, ctx, cache)
     finally:
@@ -192,12 +194,13 @@ def _sample(sim, gameplay, n, comp_name, gap, K0, unknown, k, values, configs, c
             sim.fail("C11.result_depends_on_worker_processes_or_schedule", c)
 
 
-def _best_states(sim, n, comp_name, gap, cls, explorable, k, values, configs, ctx, cache) -> None:
+def _best_states(sim, n, comp_name, gap, cls, explorable, extras, k, values, configs, ctx, cache) -> None:
+    """`explorable` = coalitions unknown at the start (explorable minus the extra initially known ones)."""
     from incomplete_cooperative.run.best_states import get_best_exploitability
     sim.probe("best_states")
     samples = len(values)
     first = None
-    K0 = games.minimal_ids(n)
+    K0 = games.minimal_ids(n) + list(extras)
     comp = games.computer(comp_name)
     for p, image in configs:
         sim.op("best_states", p, image, samples)
@@ -205,7 +208,7 @@ def _best_states(sim, n, comp_name, gap, cls, explorable, k, values, configs, ct
         c = {**ctx, "processes": p, "image_model": image, "samples": samples, "max_steps": k}
         src = em.ListSource(values, n)
         with sim.guard("C11.search_raised"):
-            env = em.make_env(n, comp_name, src, gap, None)
+            env = em.make_env(n, comp_name, src, gap, None, initial_extra=extras)
             drawn_before = src.drawn
             with simpool.installed(sim, image):
                 best, best_actions = get_best_exploitability(env, k, samples, gap, processes=p)
